@@ -101,7 +101,7 @@ class Campaign:
         self.bdir = os.path.join(self.scr, "build")
         self.t0 = time.time()
         self.stats = {"models": 0, "serial_traces": 0, "parallel_traces": 0, "states": 0, "lines": 0,
-                      "hangs_known": 0, "rollbacks": 0, "fossils": 0, "gvts": 0, "antis": 0, "distinct_cfg": set()}
+                      "hangs_known": 0, "rollbacks": 0, "fossils": 0, "gvts": 0, "antis": 0, "rantis": 0, "early": 0, "earlymatch": 0, "rantimatch": 0, "distinct_cfg": set()}
         self.violations = []   # of own property
         self.other = []        # failures attributed to other properties (reported by their own checks)
         self.known = []
@@ -198,6 +198,10 @@ class Campaign:
             self.stats["fossils"] += txt.count('"e":"Fossil"')
             self.stats["gvts"] += txt.count('"e":"Gvt"')
             self.stats["antis"] += txt.count('"e":"AntiLocal"')
+            self.stats["rantis"] += txt.count('"e":"AntiRemote"')
+            self.stats["early"] += txt.count('"e":"EarlyStore"')
+            self.stats["earlymatch"] += txt.count('"e":"EarlyMatch"')
+            self.stats["rantimatch"] += txt.count('"e":"RAntiMatch"')
         vd = res["verdict"]
         if vd == "ok":
             if len(self.samples) < 3:
@@ -260,7 +264,7 @@ class Campaign:
         return results
 
     # -------------------------------------------------------------- micro-model saturation on the real code
-    def micro_phase(self, name, nruns):
+    def micro_phase(self, name, nruns, ranks=0, threads=2):
         """run the real core on a micro-model of TimeWarpMC under many schedules, keep the runs with distinct
         interleavings of the shared accesses, validate them (concatenated with Reset lines) with TimeWarpTrace"""
         import hashlib
@@ -270,13 +274,16 @@ class Campaign:
             self.machinery.append({"property": "C10", "what": md["why"], "model": ("micro_" + name, 0)})
             return
         r = random.Random(self.seed * 77 + len(name))
-        core = ("Push", "Drain", "Extract", "Flag", "AntiLocal", "Undo", "Exec", "RbBegin", "Restore", "Free", "Ckpt")
+        core = ("Push", "Drain", "Extract", "Flag", "AntiLocal", "Undo", "Exec", "RbBegin", "Restore", "Free", "Ckpt",
+                "NetSend", "NetRecv", "AntiRemote", "EarlyStore", "EarlyMatch", "RAntiMatch")
 
         def one(i):
-            c = {"threads": 2, "ckpt": r.choice([1, 2, 3, 0]), "batch": r.choice([1, 1, 2, 64]), "period": r.choice([0, 50, 100000]),
+            c = {"threads": threads, "ckpt": r.choice([1, 2, 3, 0]), "batch": r.choice([1, 1, 2, 64]), "period": r.choice([0, 50, 100000]),
                  "sseed": self.seed * 100000 + i, "switch": ["1/1", "1/2", "1/3", "1/5"][i % 4], "policy": [0, 0, 2, 4][i % 4 if i % 8 else 3]}
+            if ranks:
+                c.update({"ranks": ranks, "net": i % 2, "batch": r.choice([1, 1, 2]), "period": r.choice([0, 0, 50])})
             tr = os.path.join(md["dir"], "mic_%d.ndjson" % i)
-            rc, out = run_twh(self.bdir, ["--model", md["txt"], "--out", tr] + cfg_args(c))
+            rc, out = run_twh(self.bdir, ["--model", md["txt"], "--out", tr] + cfg_args(c), binary="twd" if ranks else "twh")
             if rc not in (0, 4):
                 return None
             sig = hashlib.sha1()
@@ -411,6 +418,21 @@ class Campaign:
             self.machinery.append({"property": self.pid, "what": "model checking of %s/%s failed: %s" % (spec, cfg, r["error"] or "timeout")})
         return r
 
+    def probe_phase(self, spec, cfg, probes, **kw):
+        """non-vacuity: each probe is an invariant stating that a scenario never happens; TLC must VIOLATE it (the scenario is reachable
+        in the configuration that is model checked); a probe that holds means the configuration does not exercise the scenario"""
+        base = open(os.path.join(vlib.SPEC, cfg)).read().split("\n")
+        for pr, what in probes:
+            lines = [x for x in base if not x.startswith("INVARIANT")] + ["INVARIANT " + pr]
+            tmp = os.path.join(self.scr, "probe_%s.cfg" % pr)
+            open(tmp, "w").write("\n".join(lines) + "\n")
+            r = vlib.tlc(spec, tmp, extra=["-noGenerateSpecTE"], **kw)
+            self.stats.setdefault("mc_probes", []).append({"spec": spec, "cfg": cfg, "scenario": what, "reachable": r["violated"] == pr,
+                                                           "states_to_witness": r["distinct"]})
+            if r["violated"] != pr:
+                self.machinery.append({"property": self.pid, "what": "scenario '%s' is not reachable in %s/%s (vacuous configuration): %s" % (
+                    what, spec, cfg, r["error"] or r["violated"] or "probe invariant holds")})
+
     # -------------------------------------------------------------- reporting
     def finish(self, level="model_checking", extra_cov=None, assumptions=None, rule=None):
         level = getattr(self, "level", level)
@@ -454,9 +476,11 @@ class Campaign:
                "models": self.stats["models"], "trace_lines_validated": self.stats["lines"],
                "rollbacks_observed": self.stats["rollbacks"], "fossil_collections_observed": self.stats["fossils"],
                "gvt_values_observed": self.stats["gvts"], "anti_messages_observed": self.stats["antis"],
+               "remote_anti_messages_observed": self.stats["rantis"], "early_anti_messages_parked": self.stats["early"],
+               "early_anti_messages_matched": self.stats["earlymatch"], "remote_anti_rollbacks": self.stats["rantimatch"],
                "known_finding_hits": len(self.known), "other_property_failures": len(self.other),
                "driver_lines_validated": self.stats.get("driver_lines", 0), "conformance_divergences": self.stats.get("divergences", 0),
-               "model_checking_runs": self.stats.get("mc", []),
+               "model_checking_runs": self.stats.get("mc", []), "model_checking_reachability_probes": self.stats.get("mc_probes", []),
                "conformance_divergence_kinds": self.stats.get("divergence_kinds", {}),
                "micro_model_runs_on_real_code": self.stats.get("micro_runs", 0), "micro_model_distinct_interleavings": self.stats.get("micro_distinct", 0),
                "exhaustive": False}
